@@ -850,4 +850,10 @@ def run(ck, tier):
     from .. import strtypes as _st2
     ck.rule('R19', 'the text of the library exceptions is built totally: a __str__ that concatenates an attribute is given text by every construction site')
     ck.guard(_st2.rule_exception_text_total, ck, cx, 'R19', 'formatting the caught exception raises inside the client call')
+    ck.rule('R21', 'a reply that failed its check leaves nothing behind in the framer that mis-sizes the next reply: a cached header is reset whenever bytes are dropped from the front of the buffer (shared with C06 R6)')
+    from .c06 import r6_header_cache_coherence as _r6h
+    from ..framermodel import framer_paths as _fpaths
+    for kind in ('tcp', 'rtu', 'ascii', 'binary'):
+        kcls, kf, kfps = _fpaths(cx, kind)
+        ck.guard(_r6h, ck, cx, kind, kcls, kf, kfps, 'R21')
     return cx.idx
